@@ -10,7 +10,8 @@ export PATH="$(go env GOMODCACHE)/golang.org/toolchain@v0.0.1-go1.24.0.linux-amd
 git -C /repo worktree remove --force $WT >/dev/null 2>&1
 git -C /repo worktree add --detach $WT HEAD >/dev/null 2>&1 || { echo "worktree failed"; exit 2; }
 cd $WT
-git apply $SRC/patch.diff || { echo "RESULT $ID-$K patch-does-not-apply"; exit 2; }
+git apply $SRC/patch.diff 2>/dev/null || git apply -3 $SRC/patch.diff || { echo "RESULT $ID-$K patch-does-not-apply"; git -C /repo worktree remove --force $WT; exit 2; }
+git diff > /tmp/sv-$ID-$K.applied.diff
 PKGS=$(grep '^+++ b/' $SRC/patch.diff | sed 's|+++ b/||' | xargs -n1 dirname | sort -u | sed 's|^|./|')
 DEMODIR=$(grep -m1 -oE '(Belongs in package directory|package directory|belongs in)[: ]+`?[a-zA-Z0-9_./-]+' $SRC/demo_test.go | grep -oE '[a-zA-Z0-9_./-]+$' | sed 's|/$||')
 [ -d "$DEMODIR" ] || DEMODIR=$(echo $PKGS | awk '{print $1}')
@@ -22,11 +23,11 @@ go build ./... >/tmp/sv-$ID-$K.build.log 2>&1; B=$?
 go test -vet=off -count=1 -run "^($DEMORUN)\$" ./$DEMODIR >/tmp/sv-$ID-$K.demo_with.log 2>&1; DW=$?
 rm $DEMODIR/zz_seed_demo_test.go
 go test -vet=off -count=1 $PKGS >/tmp/sv-$ID-$K.tests.log 2>&1; T=$?
-git apply -R $SRC/patch.diff
+git apply -R /tmp/sv-$ID-$K.applied.diff
 cp $SRC/demo_test.go $DEMODIR/zz_seed_demo_test.go
 go test -vet=off -count=1 -run "^($DEMORUN)\$" ./$DEMODIR >/tmp/sv-$ID-$K.demo_without.log 2>&1; DO=$?
 rm $DEMODIR/zz_seed_demo_test.go
-git checkout -- . ; git apply $SRC/patch.diff
+git checkout -- . ; git apply /tmp/sv-$ID-$K.applied.diff
 cd /verif
 timeout 900 ./kv check $ID --repo $WT --no-evidence --no-validate --budget 240s "$@" >/tmp/sv-$ID-$K.check.log 2>&1; C=$?
 echo "RESULT $ID-$K build=$B demo_with_patch=$DW(expect!=0) existing_tests=$T(expect 0) demo_clean=$DO(expect 0) check_exit=$C(expect 1)"
